@@ -5,20 +5,29 @@ open KeepVerif
 
 def sortNats (xs : List Nat) : List Nat := (xs.toArray.qsort (· < ·)).toList
 
+/-- `seg1|seg2|…`: the block source closes the channel between segments. The unchanged watcher
+    subscribes once, so only the first segment is observed (a closed channel yields zero blocks,
+    which `index` ignores). -/
+def parseSegs (s : String) : Option (List (List Nat)) :=
+  (s.splitOn "|").mapM parseNats
+
 def model (line : String) : String :=
   match splitWs line with
   | ["watch", bs] =>
-    match parseNats bs with
-    | some blocks => showList (sortNats (C23.watch blocks))
-    | none => "bad-op"
+    match parseSegs bs with
+    | some (first :: _) => showList (sortNats (C23.watch first))
+    | _ => "bad-op"
   | _ => "bad-op"
 
 def monitor (op obs : String) : String :=
   match splitWs op, parseNats obs with
   | ["watch", bs], some o =>
-    match parseNats bs with
-    | some blocks => if C23.holds blocks o then "ok" else "FAIL window-trigger-rule"
-    | none => "FAIL bad-op"
+    match parseSegs bs with
+    | some (first :: rest) =>
+      -- the property over everything the watcher was fed, whatever it does on a closed channel;
+      -- completeness is only required for the first subscription
+      if C23.holdsSegs first rest.flatten o then "ok" else "FAIL window-trigger-rule"
+    | _ => "FAIL bad-op"
   | _, _ => "FAIL unparsable-observation"
 
 def main (args : List String) : IO UInt32 := driverMain model monitor args
